@@ -53,6 +53,43 @@ def fresh_project_race(viol, stats, samples):
             pr.destroy()
 
 
+def same_target_twice(viol, stats):
+    """Two top-level commands want one target at overlapping times (the second finds it locked and waits); repeated on
+    the built target; then a source is edited.  Afterwards the target's record is the one of a generated target with
+    its dependencies: listed by redo-targets, not by redo-sources, rebuilt when its input changes."""
+    for cmds in ([["redo", "x"], ["redo", "x"]], [["redo-ifchange", "x"], ["redo", "x"]], [["redo", "x"], ["redo", "y"]]):
+        pr = Project()
+        try:
+            pr.write("src", "1\n")
+            pr.write("x.do", "redo-ifchange src\nsleep 0.6\ncat src\n")
+            pr.write("y.do", "redo-ifchange x\ncat x\n")
+            problems = []
+            for rnd in (1, 2):
+                rs = sched.run_cmds(pr, cmds, timeout=60, stagger=0.25)
+                stats["rounds"] += 1
+                stats["commands"] += len(cmds)
+                for c, r in zip(cmds, rs):
+                    if r.rc != 0 or "you modified it" in r.err:
+                        problems.append("round %d: `%s` exit %d%s" % (rnd, " ".join(c), r.rc, " (took the other command's output for a hand edit)" if "you modified it" in r.err else ""))
+                tg = set(pr.run(["redo-targets"])[1].split())
+                so = set(pr.run(["redo-sources"])[1].split())
+                if "x" not in tg or "x" in so or "src" not in so:
+                    problems.append("round %d: redo-targets %s, redo-sources %s" % (rnd, sorted(tg), sorted(so)))
+                if problems:
+                    break
+            if not problems:
+                pr.write("src", "2\n")
+                rc, o, e = pr.run(["redo-ifchange", "x"], timeout=60)
+                if rc != 0 or pr.read("x") != b"2\n":
+                    problems.append("after editing src, redo-ifchange x exit %d leaves x = %r" % (rc, pr.read("x")))
+            if problems:
+                p = write_replay("C16", "same-target", dict(kind="impl-monitor", commands=cmds, stagger=0.25, problems=problems, scripts={"x.do": "redo-ifchange src; sleep 0.6; cat src", "y.do": "redo-ifchange x; cat x"}))
+                viol.append(Violation("C16", p, "`%s` beside `%s`: %s" % (" ".join(cmds[0]), " ".join(cmds[1]), "; ".join(problems[:3]))))
+                return
+        finally:
+            pr.destroy()
+
+
 def txn_events(trace):
     """pid -> list of wire events."""
     per = {}
@@ -117,6 +154,8 @@ def run(ctx):
     fresh_project_race(viol, stats, samples)
     if not viol:
         fresh_project_storm(viol, stats, 150 if thorough else 30)
+    if not viol:
+        same_target_twice(viol, stats)
     for rnd in range(rounds if not viol else 0):
         pr = Project()
         try:
@@ -200,6 +239,21 @@ def run(ctx):
             if ic != [("ok",)]:
                 p = write_replay("C16", "integrity-%d" % rnd, dict(kind="impl-monitor", scenario=scen, integrity=ic))
                 viol.append(Violation("C16", p, "integrity_check: %r" % ic))
+                break
+            # the records written by each command are all present afterwards: bring everything up to date, then every
+            # node of the graph is a known target, none is taken for a source, nothing is out of date
+            r1 = sched.run_cmds(pr, [["redo-ifchange", "all"]], timeout=90)[0]
+            rc1, e1 = r1.rc, r1.err
+            rc2, tg, e2 = pr.run(["redo-targets"])
+            rc3, so, e3 = pr.run(["redo-sources"])
+            rc4, oo, e4 = pr.run(["redo-ood"])
+            tg, so, oo = set(tg.split()), set(so.split()), set(oo.split())
+            lost = sorted(n for n in g if n not in tg)
+            wrong = sorted(n for n in g if n in so)
+            stats["state_checks"] = stats.get("state_checks", 0) + 1
+            if rc1 != 0 or lost or wrong or (oo & set(g)):
+                p = write_replay("C16", "records-%d" % rnd, dict(kind="impl-monitor", scenario=scen, ifchange_all_rc=rc1, not_listed_as_targets=lost, listed_as_sources=wrong, out_of_date=sorted(oo), stderr=e1[-800:]))
+                viol.append(Violation("C16", p, "after %d concurrent commands: redo-ifchange all exit %d; targets missing from redo-targets %s; targets listed as sources %s; out of date %s" % (k, rc1, lost, wrong, sorted(oo & set(g)))))
                 break
             if len(samples) < 2:
                 samples.append(dict(scenario=scen, rcs=[r.rc for r in rs], a_process_trace=list(per.values())[0][:10], answer=ans[0] if ans else None))
